@@ -13,6 +13,11 @@ RULES = [
     ("LazyBigint", "C14"), ("int ", "C14"), ("lcm", "C14"), ("floor_root", "C14"), ("9223372036854775808", "C14"),
 ]
 OPEN = [
+    {"id": "K-C02-01", "property": "C02", "status": "open",
+     "sig": r"^grammar:lt_gt_in_argument_list\|rejected$",
+     "what": "`f(a < b, c > d)`: a bare name followed by `<` inside an argument / element list is parsed as a generic specialisation `a<b, c>` and the program is rejected with a syntax error (e.g. `if(x < y, y > 0, true)`); writing `(x < y)` works",
+     "example": "let x = 1; let y = 2; let r0 = if(x < y, y > 0, true);",
+     "why_not_fixed": "needs a grammar redesign of the `name<types>` form (PEG ordered choice commits to it); not a local patch"},
 ]
 
 
